@@ -531,6 +531,7 @@ def _c14_batch_extra(self, tier):
                     os.killpg(p.pid, signal.SIGINT)
                 else:
                     time.sleep(0.3)
+                    open(os.path.join(d, 'fail2'), 'w').close()       # task 2 will fail once it has done its work
                     open(os.path.join(d, 'release'), 'w').close()
                 try:
                     out, _ = p.communicate(timeout=90)
@@ -555,7 +556,7 @@ def _c14_batch_extra(self, tier):
                     vs.append(O.V('C14', 'real-wrong-outcome', f'real {backend} run, {mode} SIGINT with all workers inside run(): run_tasks '
                                   f'ended with {info["outcome"]}', backend=backend, mode=mode))
                 if mode == 'single':
-                    if done != 3 or not all(info['is_cached']):
+                    if done != 3 or list(info['is_cached']) != [True, True, False]:      # (task 2 fails after finishing its work)
                         vs.append(O.V('C14', 'real-not-drained', f'real {backend} run, single SIGINT: {done}/3 executing tasks finished, '
                                       f'is_cached={info["is_cached"]}', backend=backend))
                 else:
